@@ -371,7 +371,7 @@ def c10_r8(ctx):
         d, neg = closure_cmp(facts, g)
         if d is None:
             continue
-        rel, a, b = cmp_rel_of(d, lambda x: 'generation' in x or 'arg1' in x)
+        rel, a, b = cmp_rel_of(d, lambda x: '^arg' in x)       # the requested generation: a parameter of wait_for_update captured by the predicate
         # rel is "requested generation REL current": waiting while current < requested  <=> requested > current
         if rel is not None and neg:
             rel = frozenset({'<', '=', '>'} - set(rel))
